@@ -312,8 +312,13 @@ func (a ApplySpendingPoolWithdrawProposalHandler) Apply(ctx sdk.Context, proposa
 			return err
 		}
 
-		// update pool to reduce pool's balance
-		pool.Balances = sdk.Coins(pool.Balances).Sub(sdk.Coins(p.Amounts)...)
+		// update pool to reduce pool's balance; the recorded balance can have dropped since the
+		// proposal was submitted and Coins.Sub panics below zero (inside the gov end-blocker)
+		balances, negative := sdk.Coins(pool.Balances).SafeSub(sdk.Coins(p.Amounts)...)
+		if negative {
+			return types.ErrNotEnoughPoolBalance
+		}
+		pool.Balances = balances
 	}
 
 	a.keeper.SetSpendingPool(ctx, *pool)
